@@ -1,0 +1,43 @@
+//go:build verif
+
+// Contracts for package hostmux, checked by /verif (ssovc). Comment-only file.
+package hostmux
+
+//@ type Router
+//@   guarded_by StaticRoutes, RegexpRoutes, DefaultRoute : mu
+//@   typeinv routes_map_exists: StaticRoutes != nil
+
+// locked(e): e evaluated in the state in which this call acquired r.mu.
+// Static routes first (exact Host match); otherwise the first regexp route, in registration order,
+// whose pattern matches the Host; otherwise the default route.
+//@ func (r *Router) Route(req *http.Request) Route
+//@   modifies nothing
+//@   ensures [C13] static_first: locked(req.Host in r.StaticRoutes) ==> typeis(result, "*hostmux.StaticRoute") && result.pay == locked(r.StaticRoutes[req.Host])
+//@   ensures [C13] first_matching_regexp: !locked(req.Host in r.StaticRoutes) && (exists k :: 0 <= k && k < locked(len(r.RegexpRoutes)) && locked(reMatch(r.RegexpRoutes[k].regexp, req.Host))) ==> typeis(result, "*hostmux.RegexpRoute") && (exists k :: 0 <= k && k < locked(len(r.RegexpRoutes)) && locked(reMatch(r.RegexpRoutes[k].regexp, req.Host)) && (forall j :: 0 <= j && j < k ==> !locked(reMatch(r.RegexpRoutes[j].regexp, req.Host))) && result.pay == locked(r.RegexpRoutes[k]))
+//@   ensures [C13] default_last: !locked(req.Host in r.StaticRoutes) && (forall j :: 0 <= j && j < locked(len(r.RegexpRoutes)) ==> !locked(reMatch(r.RegexpRoutes[j].regexp, req.Host))) ==> typeis(result, "*hostmux.DefaultRoute") && result.pay == locked(r.DefaultRoute)
+//@   loop 1
+//@     invariant forall j :: 0 <= j && j < $i ==> !reMatch(r.RegexpRoutes[j].regexp, req.Host)
+
+//@ func (r *Router) HandleStatic(host string, handler http.Handler)
+//@   modifies mapof(r.StaticRoutes)
+//@   ensures [C13] registered_under_host: (host in r.StaticRoutes) && r.StaticRoutes[host].host == host && r.StaticRoutes[host].handler == handler
+
+//@ func (r *Router) HandleRegexp(regexp *regexp.Regexp, handler http.Handler)
+//@   modifies r.RegexpRoutes
+//@   ensures [C13] appended_in_order: len(r.RegexpRoutes) == locked(len(r.RegexpRoutes)) + 1 && r.RegexpRoutes[locked(len(r.RegexpRoutes))].regexp == regexp && r.RegexpRoutes[locked(len(r.RegexpRoutes))].handler == handler
+//@   ensures [C13] earlier_routes_kept: forall j :: 0 <= j && j < locked(len(r.RegexpRoutes)) ==> r.RegexpRoutes[j] == locked(r.RegexpRoutes[j])
+
+//@ func misdirected(rw http.ResponseWriter, req *http.Request)
+//@   requires fresh_response: rw.$status == 0
+//@   ensures [C13] answers_421: rw.$status == 421
+
+//@ func NewRouter() *Router
+//@   fresh result
+//@   ensures [C13] starts_empty: len(result.StaticRoutes) == 0 && len(result.RegexpRoutes) == 0 && result.DefaultRoute != nil
+//@   ensures [C13] default_is_421: result.DefaultRoute.handler.pay == fnid("misdirected")
+
+//@ interface Route.Handler() http.Handler
+//@   modifies nothing
+
+//@ func (r *Router) ServeHTTP(rw http.ResponseWriter, req *http.Request)
+//@   ensures [C13] dispatches_to_route: called(@Route#1) && arg(@Route#1, 1) == req && called(@Handler#1) && arg(@Handler#1, 0) == @Route#1 && called(@ServeHTTP#1) && arg(@ServeHTTP#1, 0) == @Handler#1 && arg(@ServeHTTP#1, 2) == req
